@@ -23,8 +23,9 @@ def C(ids, children, tok=2, quals=()):
             "ctype": 0, "val": None}
 
 
-def L(ids, children, tok=4):
-    return {"mt": "SubmodelElementList", "ids": ids, "tok": tok, "quals": [], "children": children, "ctype": 0, "val": None}
+def L(ids, children, tok=4, ctype=0):
+    """ctype of a list = its typing: 0 Property/xs:string, 1 Range/xs:int, 2 Property/xs:string + semanticIdListElement"""
+    return {"mt": "SubmodelElementList", "ids": ids, "tok": tok, "quals": [], "children": children, "ctype": ctype, "val": None}
 
 
 def F(ids, val, ctype=0, tok=6):
@@ -60,9 +61,9 @@ def fixture():
     sm1 = {"k": "sm", "id": SM1, "ids": "Sm1", "tok": 1, "quals": [("q1", 1), ("q2", 2)], "elems": [
         P("p1", 1, [("q1", 5), ("q2", 6)]), REL("r1"), AREL("r2"), P("v1", 2),
         C("c1", [P("p2", 3), C("c2", [P("p3", 3)])], quals=[("q2", 6)]),
-        L("l1", [P(None, 5)]),
+        L("l1", [P(None, 5), P(None, 6)]), L("l2", [R(None, 3)], ctype=1),
         F("f1", None), F("f2", "/aasx/x.txt"), F("f3", "http://ext/x.txt"), F("f4", "/aasx/missing.txt"),
-        B("b1", 1), B("b2", None), B("b3", 1, ctype=2), F("f5", "/aasx/x.txt", ctype=2),
+        B("b1", 1), B("b2", None), B("b4", 0), B("b3", 1, ctype=2), F("f5", "/aasx/x.txt", ctype=2),
         C("c3", []), C("c4", []), C("c5", []), C("c6", [])]}
     sm2 = {"k": "sm", "id": SM2, "ids": "Sm2", "tok": 2, "quals": [], "elems": []}
     sh1 = {"k": "shell", "id": AAS1, "ids": "Sh1", "tok": 1, "refs": [SM1, "urn:dangling", CD1]}
@@ -176,6 +177,14 @@ VALUES = [  # (label, abstract value)
     ("qual-odd", {"k": "qual", "type": QTYPES[2], "val": 4}),
     ("ref-new", {"k": "ref", "id": SM2}), ("ref-existing", {"k": "ref", "id": SM1}),
     ("ai", {"k": "ai", "tok": 5}),
+    # replace bodies that re-type a stored list (other item class / value type / semanticIdListElement) or resize it
+    ("list-l1-range", dict(L("l1", [R(None, 1), R(None, 2)], ctype=1), k="elem")),
+    ("list-l1-semid", dict(L("l1", [P(None, 8)], ctype=2), k="elem")),
+    ("list-l1-grown", dict(L("l1", [P(None, 5), P(None, 6), P(None, 7)]), k="elem")),
+    ("list-l2-property", dict(L("l2", [P(None, 1)], ctype=0), k="elem")),
+    ("sm-list-retyped", {"k": "sm", "id": SM1, "ids": "Sm1", "tok": 9, "quals": [],
+                         "elems": [L("l1", [R(None, 1)], ctype=1), L("l2", [P(None, 2), P(None, 3)], ctype=2), P("p1", 3)]}),
+    ("blob-b4-empty", dict(B("b4", 0), k="elem")), ("blob-new-empty", dict(B("n5", 0), k="elem")),
     # replace bodies in which a child keeps its idShort but changes its class
     ("sm-classchange", {"k": "sm", "id": SM1, "ids": "Sm1", "tok": 9, "quals": [],
                         "elems": [R("p1"), C("c1", [R("p2"), P("c2", 5)], tok=5), P("v1", 3), F("b1", None), B("f1", 1)]}),
@@ -275,6 +284,11 @@ def base_request(rule, method="GET"):
     return req
 
 
+CT_PARAMS = [("charset-bogus", "; charset=bogus"), ("charset-utf9", "; charset=utf-9"), ("charset-hex", "; charset=hex"),
+             ("charset-base64", "; charset=base64"), ("charset-rot13", "; charset=rot13"), ("charset-empty", "; charset="),
+             ("charset-quoted", '; charset="utf-8"'), ("charset-upper", "; CHARSET=UTF-8"), ("charset-latin1", "; charset=latin-1"),
+             ("charset-utf16", "; charset=utf-16"), ("boundary", "; boundary=xyz"), ("extra", "; foo=bar; q=0.5"),
+             ("semicolon-only", ";"), ("charset-twice", "; charset=utf-8; charset=bogus")]
 LIST_EPS = {"get_aas_all", "get_aas_all_reference", "get_aas_submodel_refs", "get_submodel_all", "get_submodel_all_metadata",
             "get_submodel_all_reference", "get_submodel_submodel_elements", "get_submodel_submodel_elements_metadata",
             "get_submodel_submodel_elements_reference", "get_concept_description_all"}
@@ -339,6 +353,13 @@ def matrix(routes, rng, full, expects=None):
                                 continue        # qualifiers / submodel references are not part of the core level
                             out.append(dict(base, body=("raw", ct, data, "bad"), query=[("level", lev)] if lev else [],
                                             cls=f"valid|body:{blab}|level:{lev}"))
+                if vlab == "valid" and want0 and routed and m in ("POST", "PUT"):
+                    # a document of the expected class, sent with Content-Type parameters
+                    good = [v for lab, v in VALUES if VCLASS[v["k"]] == want0][:1]
+                    for v in good:
+                        for fmt in ("json", "xml"):
+                            for plab, params in CT_PARAMS:
+                                out.append(dict(base, body=("val", fmt, v, params), cls=f"valid|body:{fmt}|ctparam:{plab}"))
                 if vlab == "valid" and routed and m in ("GET", "POST"):
                     out.append(dict(base, host="a..b", cls="badhost"))
                     out.append(dict(base, host="a..b", accept=ACCEPTS[2], cls="badhost|accept:xml"))
@@ -355,6 +376,13 @@ def matrix(routes, rng, full, expects=None):
                         out.append(dict(base, accept=acc, cls="accept:" + str(acc[0])))
                     for acc in ACCEPTS[2:4]:
                         out.append(dict(base, accept=acc, query=[("level", "core")], cls="accept+core:" + str(acc[0])))
+    # what remains of the path below a shell's submodel is copied into the redirect
+    for rule in rules:
+        if rule.endswith("<path:path>"):
+            for tlab, tail in [("cr", "a\rb"), ("lf", "a\nb"), ("nonascii", "ä/ö"), ("query-chars", "a b?x#y"), ("nul", "a\x00b"),
+                               ("long", "x" * 3000), ("dots", "../.."), ("percent", "%41%zz")]:
+                for m in ("GET", "POST", "DELETE"):
+                    out.append(dict(base_request(rule, m), tail=tail, cls="redirect-tail:" + tlab))
     # unknown routes
     for rule in ["/nothing", "/shells/<base64url:aas_id>/nothing", "/submodels/<base64url:submodel_id>/submodel-elements/<id_short_path:id_shorts>/nothing"]:
         for m in METHODS:
@@ -490,6 +518,17 @@ def scenarios():
             rq(el, "GET", sm=b64("urn:a"), path="r1")]
     for backed in (False, True):
         out.append((f"put-subclass-{'file' if backed else 'mem'}", backed, [dict(r) for r in reqs], False))
+    # a file name of maximal length that is taken by another file: add_file() appends a counter
+    long_name = "/" + "a" * 1999
+    sm = {"k": "sm", "id": "urn:a", "ids": "S", "tok": 1, "quals": [], "elems": [F("f1", None), F("f2", None), F("f3", None)]}
+    reqs = [rq("/submodels", "POST", ("val", "json", sm)),
+            rq(att, "PUT", ("upload", long_name, (0, 1)), sm=b64("urn:a"), path="f1", cls="max-length-file-name"),
+            rq(att, "PUT", ("upload", long_name, (0, 2)), sm=b64("urn:a"), path="f2", cls="max-length-file-name-taken"),
+            rq(att, "GET", sm=b64("urn:a"), path="f2"),
+            rq(att, "PUT", ("upload", long_name, (0, 1)), sm=b64("urn:a"), path="f3", cls="max-length-file-name-same-content"),
+            rq(att, "GET", sm=b64("urn:a"), path="f3")]
+    for backed in (False, True):
+        out.append((f"max-length-file-name-{'file' if backed else 'mem'}", backed, [dict(r) for r in reqs], False))
     # POST of an item into a SubmodelElementList on a backed store (TypeError while building the Location)
     sm = {"k": "sm", "id": "urn:a", "ids": "S", "tok": 1, "quals": [], "elems": [L("l1", [])]}
     reqs = [rq("/submodels", "POST", ("val", "json", sm)),
